@@ -248,6 +248,9 @@ def gen_history(hid, rng, length, kinds=None, apis=None, repl=None):
                         evs += hh.cancel_events(c)
                         pending.remove(c)
                         hh.tags.append("stale-inside")
+                if rng.chance(1, 6):
+                    evs.append(["r", 0])              # malformed use: a concurrent invocation on the running VM
+                    hh.tags.append("reenter")
                 if kind == "gated" and rng.chance(1, 4):
                     evs += hh.cancel_events(ctx)      # its own context, mid-run
                     hh.tags.append("own-midrun")
